@@ -184,7 +184,7 @@ def learn_spn(
 
             # Check whether only one partitioning is returned
             if len(slices) == 1:
-                tasks.append(Task(task.parent, task.data, task.scope, no_cols_split=False, no_rows_split=True))
+                tasks.appendleft(Task(task.parent, task.data, task.scope, no_cols_split=False, no_rows_split=True))
                 continue
 
             # Add sub-tasks and append Sum node
@@ -200,7 +200,7 @@ def learn_spn(
 
             # Check whether only one partitioning is returned
             if len(slices) == 1:
-                tasks.append(Task(task.parent, task.data, task.scope, no_cols_split=True, no_rows_split=False))
+                tasks.appendleft(Task(task.parent, task.data, task.scope, no_cols_split=True, no_rows_split=False))
                 continue
 
             # Add sub-tasks and append Product node
